@@ -66,6 +66,13 @@ def items(tier):
     add("linsolve", "real-n2-general-lda", n=2, mclass="general", lda=True, solver="real", nonsym=True)
     add("linsolve", "real-n2-2rhs", n=2, mclass="general", nrhs=2, lda=False, solver="real", nonsym=True)
     add("linsolve", "real-n2-cplx", n=2, mclass="general", cplx=True, lda=False, solver="real", nonsym=True)
+    # user-supplied class flags with the module's own solver choice (a wrong promotion symmetric -> hermitian shows here)
+    add("linsolve", "real-n2-csym-symflag", n=2, mclass="symmetric", cplx=True, lda=False, solver="real",
+        flags=dict(symmetric=True), nonherm=True)
+    add("linsolve", "real-n2-csym-noflag", n=2, mclass="symmetric", cplx=True, lda=False, solver="real", nonherm=True)
+    add("linsolve", "real-n2-herm-hermflag", n=2, mclass="hermitian", cplx=True, lda=False, solver="real",
+        flags=dict(hermitian=True), indef=True)
+    add("linsolve", "real-n2-sym-symflag", n=2, mclass="symmetric", lda=False, solver="real", flags=dict(symmetric=True), indef=True)
     if not q:
         add("linsolve", "real-n2-spd", n=2, mclass="symmetric", lda=False, solver="real", posdiag=True)
         add("linsolve", "real-n3-symindef", n=3, mclass="symmetric", lda=False, solver="real", indef=True)
@@ -109,8 +116,11 @@ def sc_linsolve(V, P, cfg):
         if cfg.get("nonsym"):
             V.assume(A[0, 1] != A[1, 0], "general class: A is not symmetric (the symmetric class has its own items)")
         if cfg.get("indef"):
-            V.assume(A[0, 0] < 0, "indefinite symmetric class: A_00 < 0 < A_11 (LDL branch)")
-            V.assume(A[1, 1] > 0)
+            d0, d1 = (A[0, 0].re, A[1, 1].re) if isinstance(A[0, 0], C) else (A[0, 0], A[1, 1])
+            V.assume(d0 < 0, "indefinite symmetric/Hermitian class: A_00 < 0 < A_11 (LDL branch)")
+            V.assume(d1 > 0)
+        if cfg.get("nonherm"):
+            V.assume(A[0, 1].im != 0, "complex symmetric but not Hermitian")
         if cfg.get("posdiag"):
             for i in range(n):
                 V.assume(A[i, i] > 0, "positive diagonal (Cholesky branch, success or fall-back)")
